@@ -130,6 +130,8 @@ theorem small_marshalers_pinned :
     membersMarshalJSONBody = ["if len(ms) == 0 { return []byte(`[]`), nil }", "return marshalJSON([]Member(ms))"] ∧
     dateMarshalJSONBody = ["if d.IsZero() { return []byte(`null`), nil }", "return marshalJSON(d.Time)"] ∧
     tagsMarshalJSONBody = ["return marshalJSON(ts.Map())"] ∧
+    tagsUnmarshalJSONBody = ["o := make(map[string]string)", "err := json.Unmarshal(data, &o)", "if err != nil { return err }",
+      "tags := make(Tags, 0, len(o))", "for k, v := range o { tags = append(tags, Tag{Key: k, Value: v}) }", "*ts = tags", "return nil"] ∧
     tagsMapBody = ["result := make(map[string]string, len(ts))", "for _, t := range ts { result[t.Key] = t.Value }", "return result"] ∧
     wayNodesMarshalJSONBody = ["a := make([]int64, 0, len(wn))", "for _, n := range wn { a = append(a, int64(n.ID)) }", "return marshalJSON(a)"] ∧
     wayNodesUnmarshalJSONBody = ["var a []int64", "err := unmarshalJSON(data, &a)", "if err != nil { return err }",
@@ -194,6 +196,13 @@ theorem tags_roundtrip (ts : List (String × String)) (h : (ts.map (·.1)).Nodup
   unfold tagsMap
   rw [tagsMap_nodup_aux [] ts (by simpa using h)]
   simp
+
+/-- **tags round-trip up to order, decode included**: `Tags.UnmarshalJSON` (pinned above) appends one tag per
+    entry of the decoded object while ranging over a Go map, i.e. in some order `out` of the object's entries;
+    whatever that order, with distinct keys the decoded tags are the written tags up to order -/
+theorem tags_decode_roundtrip (ts out : List (String × String)) (h : (ts.map (·.1)).Nodup)
+    (hout : out.Perm (tagsMap ts)) : out.Perm ts :=
+  hout.trans (tags_roundtrip ts h)
 
 /-- **way nodes**: the ids come back in order; versions, changesets and locations are what osmjson has no place for -/
 theorem waynodes_roundtrip (ns : List WayNode) :
